@@ -625,9 +625,33 @@ def run(tier, only=None):
                                                                           "CS": "generated C (statement macro)"}[s],
                                                                    show(t), "the reference" if pivot == "R" else "the interpreter", show(pt)),
                               detail={"this": show(t), "pivot": show(pt), "where_pivot": where[pivot]})
+    # ---- B5: the algebraic simplifier (peepBCall) treats each integer builtin by identities that hold for it ----
+    from . import c02_opt_tables as c2
+
+    class _Fwd:
+        """forwards C02-Q1's ring-algebra obligations (not the float cells, which C02 owns) as B5"""
+        samples = rep.samples
+
+        def ok(self, rule, key, nontrivial=True, sample=None):
+            if not key.startswith(("fastfloat:", "carefulfloat:")):
+                rep.ok("B5", key, nontrivial=nontrivial, sample=None)
+
+        def violation(self, rule, key, where, msg, detail=None):
+            if not key.startswith(("fastfloat:", "carefulfloat:")):
+                rep.violation("B5", key, where, msg, detail=detail)
+
+        def note(self, msg):
+            pass
+
+        def floor(self, what, n, least):
+            rep.floor(what, n, least)
+
+    c2.q1(_Fwd(), common.extract("of_peep.c", trees=["peepMakeUnaryOp"]), info)
     rep.floor("builtins with at least two comparable copies", compared, 150)
     rep.analysed_count("builtins", len(alltags))
     rep.assumptions += [
+        "B5 = C02-Q1 restricted to the ring (integer) algebra: table cells of peepBValOpInfo are identities of a commutative ring with "
+        "total order for every integer builtin routed to them; float cells are judged by C02 only",
         "FOAM Bool values are 0/1, so & and && (| and ||) coincide on them and any non-zero result denotes true",
         "ISO C isdigit/isalpha/tolower/toupper/atof are one primitive wherever they are called (-D__NO_CTYPE used while parsing)",
         "bigint.c comparison family forms a consistent total order (C11's business)",
